@@ -14,13 +14,13 @@ def run(tree, rep, tier):
     T5_T6_cost_depth(rep, T, T.stab)
     flow = Flow(tree)
     flow.describe(rep)
-    K1_loader(rep, flow, T, tier)
+    K1_loader(rep, flow, T, tier, mode="cost")
     K2_reader(rep, flow)
     P6_conservation(rep, flow, APIS, tables=T)
     NI1_sign_independence(rep, flow, roots=class_id_roots(flow), what="the class-id computation (classifier)")
     rep.trusted += ["Q1", "Q2", "Q3", "Q4"]
     rep.decided += ["cost/depth columns of every stabilizer line equal the counted/scheduled values (T5, T6)",
-                    "metadata fields are read from the documented columns of the same line the circuit is parsed from (K2), token by token (K1)",
+                    "metadata fields are read from the documented columns of the same line the circuit is parsed from (K2); the loader turns each two-qubit token into one two-qubit gate of the same native cost on the same pair (K1, cost mode)",
                     "composition, inversion, sign layer and H-cancellation add or remove no two-qubit gate (P6, T10)",
                     "the class id cannot depend on the generators' signs (NI1)"]
     rep.not_decided += ["'states differing by local Cliffords or generator choice get the same id' is C06 (value-level, not decided)"]
